@@ -14,13 +14,40 @@ coq/theories/Props/C22.v.  Three drain disciplines, all compared with Subjects/R
 Error payloads include a falsy exception object; subscribers use the four full forms of C20.
 Independent oracle: per subscriber, what it received is a prefix of [retained values at its
 subscription (last buffer_size values with age <= window), terminal if any] ++ [later
-notifications in call order], and all of it unless it unsubscribed."""
+notifications in call order], and all of it unless it unsubscribed.
+ORACLE-ONLY family replay_clock (harness/replay_clock.py, shared with C24): the subject lives on scheduler S1
+(VirtualTimeScheduler / HistoricalScheduler / TestScheduler / the default wall-clock one) and subscribers hand
+subscribe() no scheduler, S1, a second virtual-time scheduler whose clock is AHEAD of or BEHIND S1's, or a
+real-time scheduler: the retained values are judged on S1's clock only, and a subscriber's scheduler never
+changes what a later subscriber gets.  It runs just before chk.finish (subj.py is not edited)."""
+import json
+
+import replay_clock
 import subj
+
+PID = "C22"
+
+
+def with_family(chk, pid, body):
+    """Runs `body(chk)` with the replay_clock family inserted just before its chk.finish(...)."""
+    orig = chk.finish
+
+    def finish(*a, **kw):
+        chk.finish = orig
+        replay_clock.run_family(chk, pid)
+        kw["trusted_extra"] = list(kw.get("trusted_extra", ())) + [replay_clock.TRUSTED]
+        kw["assumptions"] = list(kw.get("assumptions", ())) + [replay_clock.ASSUME]
+        return orig(*a, **kw)
+    chk.finish = finish
+    return body(chk)
 
 
 def run(chk):
-    return subj.check_replay(chk)
+    return with_family(chk, PID, subj.check_replay)
 
 
 def replay(chk, path):
+    d = json.load(open(path))
+    if d.get("family") == "replay_clock":
+        return replay_clock.replay(chk, path, d, PID)
     return subj.replay_replay(chk, path)
